@@ -290,8 +290,20 @@ func (c Float32) LogBesselI(v float64, b ConstScalar) Scalar {
 func (r Float32) SmoothMax(x ConstVector, alpha ConstFloat64, t [2]Scalar) Scalar {
   r .Reset()
   t[1].Reset()
+  // shift the exponents by their maximum (a constant that cancels in the
+  // quotient), otherwise exp() over- or underflows for large alpha*x_i
+  m := math.Inf(-1)
+  for i := 0; i < x.Dim(); i++ {
+    if v := alpha.GetFloat64()*x.ConstAt(i).GetFloat64(); v > m {
+      m = v
+    }
+  }
+  if math.IsInf(m, 0) || math.IsNaN(m) {
+    m = 0.0
+  }
   for i := 0; i < x.Dim(); i++ {
     t[0].Mul(alpha, x.ConstAt(i))
+    t[0].Sub(t[0], ConstFloat64(m))
     t[0].Exp(t[0])
     t[1].Add(t[1], t[0])
     t[0].Mul(t[0], x.ConstAt(i))
